@@ -74,10 +74,12 @@ def _parse_errors(stderr, path):
         yield msg, lines, gutter, b
 
 
-def run_unit(unit_path, repo_root="/repo", rlimit=None, extra_args=(), tag="", source_map=None):
+def run_unit(unit_path, repo_root="/repo", rlimit=None, extra_args=(), tag="", source_map=None, probe=None):
     """Run once; if the only failures are resource-limit hits, retry once with a 4x rlimit and a
     different solver seed (a brittle proof script is not a violation: DESIGN.md 2.5)."""
-    res = _run_unit_once(unit_path, repo_root, rlimit, extra_args, tag, source_map)
+    res = _run_unit_once(unit_path, repo_root, rlimit, extra_args, tag, source_map, probe)
+    if probe:
+        return res
     if res.status == "undecided" and res.reason == "rlimit":
         base = rlimit or res.unit.rlimit or 10
         res2 = _run_unit_once(unit_path, repo_root, base * 4, tuple(extra_args) + ("--smt-option", "smt.random_seed=7"), tag, source_map)
@@ -87,12 +89,12 @@ def run_unit(unit_path, repo_root="/repo", rlimit=None, extra_args=(), tag="", s
     return res
 
 
-def _run_unit_once(unit_path, repo_root="/repo", rlimit=None, extra_args=(), tag="", source_map=None):
+def _run_unit_once(unit_path, repo_root="/repo", rlimit=None, extra_args=(), tag="", source_map=None, probe=None):
     t0 = time.time()
     unit = extract.Unit(unit_path)
     res = UnitResult(unit)
     try:
-        em = extract.build(unit, repo_root, source_map)
+        em = extract.build(unit, repo_root, source_map, probe)
     except extract.ExtractError as e:
         res.status = "undecided"
         res.reason = "%s: %s" % (e.reason, e.detail)
@@ -115,7 +117,7 @@ def _run_unit_once(unit_path, repo_root="/repo", rlimit=None, extra_args=(), tag
         fr.src = (rel, sl)
         res.fn[name] = fr
     rl = rlimit or unit.rlimit
-    cmd = ["verus", os.path.basename(path), "--output-json", "--time", "--multiple-errors", "4"]
+    cmd = ["verus", os.path.basename(path), "--output-json", "--time", "--multiple-errors", "12"]
     if rl:
         cmd += ["--rlimit", str(rl)]
     cmd += list(extra_args)
@@ -171,9 +173,19 @@ def _run_unit_once(unit_path, repo_root="/repo", rlimit=None, extra_args=(), tag
                 owner = o[0]
                 break
         if owner is None:
-            # lemma / prelude item: name from the block text
+            # lemma / prelude / postlude item: name from the block text, else the enclosing `fn` in the emitted file
             mm = re.search(r"(?:proof |spec )?fn (\w+)", block)
-            owner = "<lemma>::" + (mm.group(1) if mm else "?")
+            nm = mm.group(1) if mm else None
+            if nm is None and lines:
+                src_lines = em.text.split("\n")
+                k = min(lines[0], len(src_lines)) - 1
+                while k >= 0:
+                    m2 = re.match(r"\s*(?:pub\s+)?(?:(?:proof|exec|spec|open spec|closed spec|broadcast proof)\s+)*fn\s+(\w+)", src_lines[k])
+                    if m2:
+                        nm = m2.group(1)
+                        break
+                    k -= 1
+            owner = "<lemma>::" + (nm or "?")
         fr = res.fn.setdefault(owner, FnResult(owner))
         fr.ok = False
         kind = msg
